@@ -767,16 +767,19 @@ def in_race_class(m, pool):
     ids = {univ.index(json.dumps(d)) for d in nodes}
     pre = {(l, c): st for l, c, st in m["pre"]}
     for c in ids:
-        # the node will be executed although a complete result for it is listed: either rerun reaches it and
-        # the root holds its previous result, or the first complete result in the listed order is a failure
-        if op["rerun"] and op["prop"] and pre.get((op["root"], c), "partial") != "partial":
-            return True
+        first = None                       # the first complete result in the listed order, if any
         for l in [op["root"]] + op["ro"]:
             st = pre.get((l, c), "partial")
             if st != "partial":
-                if st == ["err"]:
-                    return True
+                first = st
                 break
+        will_execute = (op["rerun"] and op["prop"]) or first is None or first == ["err"]
+        # the node is executed while the scheduler process can still see something stale for it: a complete
+        # result (previous run in the root, or a failure anywhere listed), or a leftover directory in the root whose
+        # unloadable _result.pklz load_result is still retrying when the worker process removes the directory
+        # (FileNotFoundError is not among the exceptions load_result retries on)
+        if will_execute and ((op["root"], c) in pre or first == ["err"]):
+            return True
     return False
 
 
